@@ -2,6 +2,7 @@
 from lib import core, rlngen
 from lib.gen import P, le, rand_fr
 from lib.rlngen import hx
+from lib import zkeygen
 
 THEOREMS = {"ZkProofs.C17": ["Zk.C17_all_backends_same_roots_and_paths", "Zk.C17_paths_in_circuit_format"],
             "ZkProofs.C17Protocol": ["Zk.C17_stateless_verifier_agrees", "Zk.C17_stateless_prover_agrees"]}
@@ -35,6 +36,23 @@ def check(run):
     if len(set(digests.values())) != 1:
         run.violation({"property": run.pid, "kind": "impl-vs-spec", "stream": "key-files", "ops": ["key_digest"],
                        "detail": "the configurations load different proving keys / constraint matrices: " + str(digests)})
+    # ---- the snarkjs key-file reader against its model (ZkModel/Zkey.lean): the bundled file, the key the default build actually
+    #      loaded, and generated files (sections in any order, duplicated / unknown / missing sections, wrong length fields,
+    #      truncation, records outside the matrices, points off the curve, header numbers that make the subtractions wrap)
+    zl, zkinds = zkeygen.lines(rng, 150 if quick else 3000)
+    bundled = core.REPO + "/rln/resources/tree_height_20/rln_final.zkey"
+    # every file also through readers that hand out a few bytes per read() call (read_zkey is generic in `Read + Seek`)
+    chunked = [[f"zkey_chunk {hex(rng.choice([1, 2, 3, 5, 7, 31, 33, 100]))} {l.split(' ')[1]}"] for l in zl[::2]]
+    files = [[f"zkeyfile {bundled}"], [f"zkeyfile_buf {bundled}"], [f"zkeyfile_chunk 0x2000 {bundled}"], [f"zkeyfile_chunk {hex(rng.choice([1000, 4096, 65536, 1 << 20]))} {bundled}"]]
+    st = run.differential("zkey-reader", files + [[l] for l in zl] + chunked, shrink=False)
+    run.cov["zkey_reader_kinds"] = zkinds
+    loaded = core.run_impl(zkh, ["zkey_loaded"], ("run",))[0]
+    from_file = core.run_lean("model", [f"zkeyfile {bundled}"])[0]
+    run.cov["zkey_loaded_equals_model_reading_of_bundled_file"] = (loaded == from_file)
+    if loaded != from_file or not loaded.startswith("ok "):
+        run.violation({"property": run.pid, "kind": "impl-vs-model", "stream": "zkey-reader", "ops": ["zkey_loaded", f"zkeyfile {bundled}"],
+                       "detail": "the proving key and matrices the build loaded differ from the model's reading of the bundled snarkjs key file",
+                       "impl": loaded, "model": from_file})
     # ---- tree-only histories (cheap, many): every mutator of the RLN API incl. the batch calls, write-then-delete patterns that
     #      empty whole aligned blocks again, explicit zero leaves; observables after EVERY call, compared across the four tree builds
     ncheap = 40 if quick else 400
